@@ -151,6 +151,56 @@ func registerNatives(e *Engine) {
 		return nil
 	})
 
+	// ---- model clock and channels (C20) ----
+	vp("Now", func(ex *Exec, site ssa.Instruction, args []Value) Value {
+		if ex.clock == nil {
+			ex.clock = ex.tb().ConstI(0, 64)
+		}
+		return ex.clock
+	})
+	vp("Advance", func(ex *Exec, site ssa.Instruction, args []Value) Value {
+		if ex.clock == nil {
+			ex.clock = ex.tb().ConstI(0, 64)
+		}
+		ex.clock = ex.tb().Add(ex.clock, ex.term(args[0]))
+		return nil
+	})
+	mkChan := func(ex *Exec, site ssa.Instruction, args []Value) Value {
+		if ex.clock == nil {
+			ex.clock = ex.tb().ConstI(0, 64)
+		}
+		ex.objSeq++
+		return &Chan{ID: ex.objSeq, FireAt: ex.tb().Add(ex.clock, ex.term(args[0]))}
+	}
+	vp("TimerChan", mkChan)
+	vp("DoneChan", mkChan)
+	vp("SameRef", func(ex *Exec, site ssa.Instruction, args []Value) Value {
+		a, _ := args[0].(*Iface)
+		b, _ := args[1].(*Iface)
+		if a == nil || b == nil {
+			return ex.tb().Bool(a == nil && b == nil)
+		}
+		switch x := a.V.(type) {
+		case *Map:
+			y, _ := b.V.(*Map)
+			return ex.tb().Bool(x == y)
+		case Bytes:
+			y, ok := b.V.(Bytes)
+			return ex.tb().Bool(ok && x.BO == y.BO && x.Off == y.Off && x.Len == y.Len)
+		case Ptr:
+			y, ok := b.V.(Ptr)
+			return ex.tb().Bool(ok && x.Obj == y.Obj)
+		case *GSlice:
+			y, _ := b.V.(*GSlice)
+			if x.IsNil() || y.IsNil() {
+				return ex.tb().Bool(x.IsNil() && y.IsNil())
+			}
+			return ex.tb().Bool(x.Vec == y.Vec && x.Off == y.Off && x.Len == y.Len)
+		}
+		ex.fail("vp.SameRef on %T", a.V)
+		return nil
+	})
+
 	// ---- uninterpreted functions ----
 	vp("UFBool", func(ex *Exec, site ssa.Instruction, args []Value) Value {
 		return ex.uf(ex.argName(args[0]), smt.BoolSort, args[1])
@@ -297,6 +347,16 @@ func registerNatives(e *Engine) {
 		return Ptr{Obj: ex.newObj(t, args[1])}
 	}
 	n["flag.String"], n["flag.Bool"], n["flag.Int"], n["flag.Duration"], n["flag.Uint"], n["flag.Uint64"] = flagVar, flagVar, flagVar, flagVar, flagVar, flagVar
+	n["(crypto.Hash).Size"] = func(ex *Exec, site ssa.Instruction, args []Value) Value {
+		h := ex.concretize(ex.term(args[0]), 8, "crypto.Hash value")
+		sizes := map[int64]int{1: 16, 2: 16, 3: 20, 4: 28, 5: 32, 6: 48, 7: 64, 8: 36, 9: 20, 10: 28, 11: 32, 12: 48, 13: 64, 14: 28, 15: 32, 16: 32, 17: 32, 18: 48, 19: 64}
+		sz, ok := sizes[h]
+		if !ok {
+			ex.oblige("panic", "", ex.tb().True(), "crypto: Size of unknown hash function")
+			panic(pathEnd{kind: endPanic})
+		}
+		return ex.c64(uint64(sz))
+	}
 	n["time.Now"] = func(ex *Exec, site ssa.Instruction, args []Value) Value {
 		ex.fail("UNMODELLED callee time.Now (harness must supply a clock model)")
 		return nil
